@@ -8,6 +8,7 @@ let () =
    | [ _; "proto"; file ] -> Drv_proto.proto file
    | [ _; "absval"; file; handle; tyid ] -> Drv_absval.absval file handle tyid
    | [ _; "absent"; file ] -> Drv_absent.absent file
+   | [ _; "abspar"; file; child ] -> Drv_abspar.abspar file child
    | [ _; "codec-mesh"; file ] -> Drv_codec.codec_mesh file
    | [ _; "codec-image"; file ] -> Drv_codec.codec_image file
    | [ _; "codec-msg"; file ] -> Drv_codec.codec_msg file
